@@ -71,9 +71,12 @@ def gen(t, tier):
     sc = {'backend': copy.deepcopy(backend), 'level': z, 'meta_size': meta, 'meta_buffer': t.pick([0, 0, 2]) if meta != [1, 1] else 0,
           'pool': pool, 'ops': [], 'frac': t.pick([0.0, 0.25, 0.9]),
           'ocean': bool(backend.get('link')) or bool(t.chance(0.2))}
+    # a second, transparent source on top (an overlay): while it "fails softly" its error handler answers with an uncacheable
+    # transparent image - what is built from it may be served but must not be written into the cache
+    sc['overlay'] = bool(t.chance(0.2))
     nops = t.randint(6, 18 if tier == 'quick' else 30)
     for _ in range(nops):
-        k = t.weighted([('req', 8), ('adv', 5), ('thr', 3), ('touch', 1), ('upfail', 1), ('seed', 1), ('req2', 3),
+        k = t.weighted([('softfail', 2 if sc['overlay'] else 0), ('req', 8), ('adv', 5), ('thr', 3), ('touch', 1), ('upfail', 1), ('seed', 1), ('req2', 3),
                         ('age', 2 if meta != [1, 1] else 1), ('storefail', 1 if backend['type'] == 'file' else 0)])
         if k == 'req2':
             # two (or three) concurrent requests for the same or neighbouring tiles
@@ -101,6 +104,8 @@ def gen(t, tier):
                 sc['ops'].append(['thr', {'kind': kind}])
         elif k == 'touch':
             sc['ops'].append(['touch'])
+        elif k == 'softfail':
+            sc['ops'].append(['softfail', bool(t.choice(2))])
         elif k == 'age':
             # one stored tile is older than its neighbours (what an interrupted refresh of a meta tile, a changed meta_size or
             # tiles restored from a backup leave behind): its recorded time is moved back
@@ -212,11 +217,41 @@ def _run(sc, tape):
     decided = [0]
     v = None
 
+    softfail = [False]
+    overlay_log = []
+
+    class Overlay(object):
+        """second source of the cache: fully transparent; in a soft-failure period it answers like mapproxy's
+        HTTPSourceErrorHandler does for `on_error: {other: {response: transparent, cache: False}}`"""
+        res_range = None
+        coverage = None
+        extent = None
+        supports_meta_tiles = True
+        transparent = True
+
+        def is_opaque(self, query):
+            return False
+
+        def get_map(self, query):
+            from PIL import Image
+            from mapproxy.image import ImageSource, BlankImageSource
+            opts = ImageOptions(format='image/png', transparent=True, colors=0)
+            overlay_log.append({'soft': softfail[0], 'bbox': tuple(query.bbox)})
+            if sched is not None:
+                sched.yield_point('overlay-call', len(overlay_log))
+            if softfail[0]:
+                faults['overlay_soft_failure'] = faults.get('overlay_soft_failure', 0) + 1
+                return BlankImageSource(size=query.size, image_opts=opts, cacheable=False)
+            return ImageSource(Image.new('RGBA', tuple(query.size), (0, 0, 0, 0)), size=tuple(query.size), image_opts=opts, cacheable=True)
+
     def make_tm():
         cache = C.make_cache(sc['backend'], cdir)
         locker = TileLocker('/simfs/locks', 60, cache.lock_cache_id)
         src = U.SimSource(w, shared, image_opts=image_opts)
-        return TileManager(grid, cache, [src], 'png', locker, image_opts=image_opts,
+        sources = [src]
+        if sc.get('overlay'):
+            sources.append(Overlay())
+        return TileManager(grid, cache, sources, 'png', locker, image_opts=image_opts,
                            meta_size=sc['meta_size'], meta_buffer=sc['meta_buffer'])
 
     def stored(coord, cache):
@@ -358,6 +393,8 @@ def _run(sc, tape):
                     w.fs.utime(TRIGGER, None)
             elif k == 'upfail':
                 upfail[0] = op[1]
+            elif k == 'softfail':
+                softfail[0] = op[1]
             elif k == 'storefail':
                 if onsim:
                     storefail.update({'armed': True, 'errno': op[1], 'skip': op[2]})
@@ -380,6 +417,7 @@ def _run(sc, tape):
         t_begin = clock.now
         before = _snapshot(tm, pool)
         n0 = len(shared['log'])
+        ov0 = len(overlay_log)
         exc = None
         tiles = None
         try:
@@ -398,9 +436,19 @@ def _run(sc, tape):
             gc.collect()
         except Exception as ex:
             raise Bad('request-raised', '%s raised %r\n%s' % (what, ex, ''.join(traceback.format_tb(ex.__traceback__)[-3:])))
+        storefail['armed'] = False      # the disk error is meant for this request only
         thr2 = threshold_now()
         calls = shared['log'][n0:]
         after = _snapshot(tm, pool)
+        soft = [e for e in overlay_log[ov0:] if e['soft']]
+        if soft:
+            # part of what was built in this request is an uncacheable error image: nothing of it may reach the cache
+            for c in pool:
+                if after[c] != before[c] and any(U.covers(e['bbox'], c) for e in soft):
+                    raise Bad('uncacheable-result-stored', '%s: a source failed softly (uncacheable error image) while tile %s was '
+                              'built, but the cache changed from %r to %r: the old tile is gone and the degraded one counts as fresh' % (
+                                  what, c, before[c], after[c]))
+            return
         if thr == 'error' or thr2 == 'error':
             return
         if thr is not None and thr2 is not None:
@@ -450,7 +498,6 @@ def _run(sc, tape):
                 # write (whole seconds for the sqlite backends), whatever the source says about the age of its data
                 raise Bad('write-time-not-recorded', '%s: tile %s was written during this request (%s .. %s) but the cache '
                           'records %s as its time' % (what, c, _fmt(t_begin), _fmt(clock.now), _fmt(a[1])))
-        storefail['armed'] = False
         if exc is not None:
             if not any(e['ok'] is False for e in calls) and not getattr(exc, 'injected', False):
                 raise Bad('spurious-error', '%s raised %r although no upstream call failed' % (what, exc))
@@ -487,6 +534,7 @@ def _run(sc, tape):
     def _concurrent(tm, reqs, what, pool):
         """several requests at once (threads sharing the TileManager): a tile refreshed by one of them is newer than
         the threshold for the others and must not be fetched again"""
+        storefail['armed'] = False
         thr = threshold_now()
         before = _snapshot(tm, pool)
         n0 = len(shared['log'])
@@ -515,6 +563,12 @@ def _run(sc, tape):
         calls = shared['log'][n0:]
         after = _snapshot(tm, pool)
         probes['concurrent_request_ops'] = probes.get('concurrent_request_ops', 0) + 1
+        if softfail[0]:
+            for c in pool:
+                if after[c] != before[c]:
+                    raise Bad('uncacheable-result-stored', '%s: the overlay source fails softly (uncacheable error image) but tile %s '
+                              'changed in the cache from %r to %r' % (what, c, before[c], after[c]))
+            return
         if thr == 'error' or thr2 == 'error' or upfail[0]:
             return
         t = state['thr']
@@ -563,7 +617,8 @@ def _run(sc, tape):
                     raise Bad('wrong-image', '%s: wrong image served for %s: %s' % (what, c, msg))
 
     def _seed(spec, what, all_level, cache_rule):
-        T = float(int(clock.now) + spec['offset'])
+        storefail["armed"] = False
+        T = float(int(clock.now) + spec["offset"])
         tm2 = make_tm()
         # the seeding tool builds its tile manager from the same configuration: the cache's own refresh_before option
         # (the rule in force while serving) is set there too - the seed task's refresh_before is what the task asked for
@@ -582,6 +637,12 @@ def _run(sc, tape):
         calls = shared['log'][n0:]
         after = _snapshot(tm2, all_level)
         probes['seed_runs'] = probes.get('seed_runs', 0) + 1
+        if softfail[0]:
+            for c in all_level:
+                if after[c] != before[c]:
+                    raise Bad('uncacheable-result-stored', '%s: the overlay source fails softly (uncacheable error image) but the seed '
+                              'task changed tile %s in the cache from %r to %r' % (what, c, before[c], after[c]))
+            return
         if upfail[0]:
             return      # with a failing upstream the seeder backs off and retries; only non-destruction is checked
         mx, my = sc['meta_size']
